@@ -205,13 +205,16 @@ func check(c Case) error {
 				return err
 			}
 			got, dup := canonSet(out)
+			allCircular := true
+			for i := range out {
+				allCircular = allCircular && out[i].Circular
+				out[i] = clone.Part{Sequence: "overwritten by the caller"} // the list belongs to the caller
+			}
 			if dup != "" {
 				return vk.Errf("%s (GOMAXPROCS %d, repetition %d): the same molecule is returned twice: %s", c.Kind, p, rep, short(dup))
 			}
-			for _, o := range out {
-				if !o.Circular {
-					return vk.Errf("%s returned a construct that is not marked circular", c.Kind)
-				}
+			if !allCircular {
+				return vk.Errf("%s returned a construct that is not marked circular", c.Kind)
 			}
 			if strings.Join(got, ",") != strings.Join(want, ",") {
 				return vk.Errf("%s (GOMAXPROCS %d, repetition %d, permuted=%v): %s", c.Kind, p, rep, perm != nil, diffSets(got, want))
